@@ -632,6 +632,24 @@ fn search_history(ctx: &mut Ctx) {
             for a in &resps { for b in &resps { check_history_uninit(ctx, a, ca, b, cb, cap, true); } }
         }
     } } }
+    // probes derived from the history itself: the same bytes with one byte inserted / replaced at every position (a value that
+    // "resumes" from stale fields of the earlier call takes a different path than a fresh one exactly where the two buffers part)
+    ctx.gen = "history-derived";
+    let edits: [u8; 8] = [b'X', b' ', b'\t', b'/', 0xff, b'\r', b'\n', b'1'];
+    let tail: &[u8] = b" /z HTTP/1.1\r\nZ: 9\r\n\r\n";
+    for (list, resp) in [(&reqs, false), (&resps, true)] {
+        for a in list.iter() { for pos in 0..=a.len() { for &e in &edits { for mode in 0..3u8 {
+            let mut b: Vec<u8> = a[..pos].to_vec();
+            match mode { 0 => { b.push(e); b.extend_from_slice(&a[pos..]); }                       // insertion
+                         1 => { if pos < a.len() { b.push(e); b.extend_from_slice(&a[pos + 1..]); } else { continue; } }   // replacement
+                         _ => { b.push(e); b.extend_from_slice(tail); } }                        // cut here, different continuation
+            for &(ca, cb) in &[(0u8, 0u8), (127, 0), (0, 127)] {
+                if resp { check_history_resp(ctx, a, ca, &b, cb, 2); check_history_uninit(ctx, a, ca, &b, cb, 2, true); }
+                else { check_history_req(ctx, a, ca, &b, cb, 2); check_history_uninit(ctx, a, ca, &b, cb, 2, false); }
+            }
+        } } } }
+    }
+    ctx.gen = "history";
     // overlapping sub-slices of ONE allocation (stale pointers of an earlier parse lie inside the next buffer)
     for big in &reqs { for i in 0..2usize { for k in 0..2usize { for j in (i..=big.len()).step_by(3) { for l in [big.len()] {
         if i <= j && k <= l { check_history_req(ctx, &big[i..j], 0, &big[k..l], 0, 4); }
@@ -647,15 +665,17 @@ fn search_history(ctx: &mut Ctx) {
 fn time_parse(kind: u8, cfgb: u8, buf: &[u8]) -> f64 {
     let pc = mkcfg(Cfg::from_bits(cfgb));
     let mut best = f64::MAX;
+    // capacity large enough that a 64 KiB run of minimal header lines is parsed to its end (allocated outside the timed region)
+    let mut h = vec![httparse::EMPTY_HEADER; 40000];
     for _ in 0..5 {
-        let t0 = std::time::Instant::now();
+        for x in h.iter_mut() { *x = httparse::EMPTY_HEADER; }
+        let t0;
         match kind {
-            0 => { let mut h = [httparse::EMPTY_HEADER; 8]; let mut r = httparse::Request::new(&mut h); let _ = std::hint::black_box(pc.parse_request(&mut r, buf)); }
-            1 => { let mut h = [httparse::EMPTY_HEADER; 8]; let mut r = httparse::Response::new(&mut h); let _ = std::hint::black_box(pc.parse_response(&mut r, buf)); }
-            2 => { let mut h = [httparse::EMPTY_HEADER; 8]; let _ = std::hint::black_box(httparse::parse_headers(buf, &mut h)); }
-            _ => { let _ = std::hint::black_box(httparse::parse_chunk_size(buf)); }
+            0 => { let mut r = httparse::Request::new(&mut h); t0 = std::time::Instant::now(); let _ = std::hint::black_box(pc.parse_request(&mut r, buf)); best = best.min(t0.elapsed().as_secs_f64()); }
+            1 => { let mut r = httparse::Response::new(&mut h); t0 = std::time::Instant::now(); let _ = std::hint::black_box(pc.parse_response(&mut r, buf)); best = best.min(t0.elapsed().as_secs_f64()); }
+            2 => { t0 = std::time::Instant::now(); let _ = std::hint::black_box(httparse::parse_headers(buf, &mut h)); best = best.min(t0.elapsed().as_secs_f64()); }
+            _ => { t0 = std::time::Instant::now(); let _ = std::hint::black_box(httparse::parse_chunk_size(buf)); best = best.min(t0.elapsed().as_secs_f64()); }
         }
-        best = best.min(t0.elapsed().as_secs_f64());
     }
     best
 }
@@ -684,6 +704,12 @@ fn family(name: &str, n: usize) -> (u8, u8, Vec<u8>) {
         "status-spaces" => { b = b"HTTP/1.1 ".to_vec(); b.extend(rep(b" ", n)); (1, 8, b) }
         "request-spaces" => { b = b"GET ".to_vec(); b.extend(rep(b" ", n)); (0, 4, b) }
         "headers-only" => { b = rep(b"Name: value value\r\n", n); (2, 0, b) }
+        "chunk-ext-semis" => { b = b"1f;".to_vec(); b.extend(rep(b";", n)); (3, 0, b) }
+        "chunk-ext-plain" => { b = b"1;".to_vec(); b.extend(rep(b"a=b", n)); (3, 0, b) }
+        "chunk-ws" => { b = b"1".to_vec(); b.extend(rep(b" \t", n)); (3, 0, b) }
+        "name-trailing-ws" => { b = b"HTTP/1.1 200 OK\r\nName".to_vec(); b.extend(rep(b" \t", n)); (1, 1, b) }
+        "empty-values" => { b = b"GET / HTTP/1.1\r\n".to_vec(); b.extend(rep(b"A:\r\n", n)); (0, 0, b) }
+        "lf-only-headers" => { b = b"GET / HTTP/1.1\n".to_vec(); b.extend(rep(b"A: b\n", n)); (0, 0, b) }
         _ => { b = b"1;".to_vec(); b.extend(rep(b"ext\n", n)); (3, 0, b) }
     }
 }
@@ -691,7 +717,7 @@ fn search_timing() -> Vec<String> {
     let mut out = vec![];
     for name in ["folded-blank-lines", "folded-lines", "ignored-lines-req", "ignored-lines-resp", "ignored-ctl-value-req", "ignored-ctl-value-resp", "ignored-long-line", "ws-after-colon", "ws-after-colon-fold", "ws-before-first",
                  "long-value", "long-value-trailing-ws", "long-name", "long-target", "many-headers", "many-headers-spaces", "empty-lines", "reason",
-                 "status-spaces", "request-spaces", "headers-only", "chunk-ext"] {
+                 "status-spaces", "request-spaces", "headers-only", "chunk-ext", "chunk-ext-semis", "chunk-ext-plain", "chunk-ws", "name-trailing-ws", "empty-values", "lf-only-headers"] {
         // each family as is (buffer ends inside the run) and followed by a closing suffix (the run is followed by real content)
         let mut worst = 0.0f64;
         let mut t_big = 0.0;
